@@ -199,7 +199,9 @@ len_is_0:
         movdqu  [tmp2], xmm0
 
 %ifdef SAFE_DATA
-        ;; clear key pointers
+        ;; clear IV and key pointers
+        pxor    xmm0, xmm0
+        movdqa  [state + _aes_args_IV + idx*2], xmm0
         mov     qword [state + _aes_args_keys + idx], 0
 %endif
 
